@@ -265,6 +265,7 @@ func GenConfig(t *rapid.T, o GenOpts) *Config {
 	}
 	exp := rapid.SampledFrom(allowed).Draw(t, "backoff")
 	rebBase := time.Duration(rapid.SampledFrom([]int{200, 1000, 3000}).Draw(t, "reb_ms")) * time.Millisecond
+	cfg.Exponent, cfg.RebMax = exp, 10*rebBase
 	cfg.Options = []gpbft.Option{
 		gpbft.WithDelta(cfg.Delta),
 		gpbft.WithDeltaBackOffExponent(exp),
